@@ -76,6 +76,13 @@ def readsOk (len cost : Nat) : Bool := cost ≤ 2 * len + 1
     ≤ 2·(|input| + bytes obtained from gzip_decode) + 2. -/
 def setCostOk (len gz cost : Nat) : Bool := cost ≤ 2 * (len + gz) + 2
 
+/-- Memory side (`C12_alloc_decoders`): bytes sliced by a response decoder ≤ |input|. -/
+def allocOk (len bytes : Nat) : Bool := bytes ≤ len
+
+/-- Memory side (`C12_alloc_msgset`): bytes sliced/copied iterating a message set
+    ≤ 3·(|input| + bytes obtained from gzip_decode). -/
+def setAllocOk (len gz bytes : Nat) : Bool := bytes ≤ 3 * (len + gz)
+
 /-- Bound proved for a fetch response decoded AND all its message sets iterated
     (`C12_linear_fetch_total`): ≤ 4·|input| + 2·(bytes obtained from gzip_decode) + 1. -/
 def fetchTotalOk (len gz cost : Nat) : Bool := cost ≤ 4 * len + 2 * gz + 1
